@@ -845,6 +845,87 @@ def Schema.dynsSvFree (S : Schema) (N : Nat) : Bool :=
     decide ((S.dyn d).defTag = T.requestMessage) || decide ((S.dyn d).defTag = T.responseMessage) ||
       S.svFreeDyn N d
 
+theorem Schema.structDef_mem_or_default (S : Schema) (id : Nat) :
+    S.structDef id ∈ S.structs ∨ S.structDef id = { fields := [] } := by
+  unfold Schema.structDef
+  rw [List.getD_eq_getElem?_getD]
+  cases hg : S.structs[id]? with
+  | none => right; rfl
+  | some d => left; exact List.mem_of_getElem? hg
+
+theorem message_encode_cell (S : Schema) (N : Nat) (hH : S.noNestedSetVersion N = true)
+    (hM : S.messageShape N = true) (A : Nat → Bool)
+    (hA : ∀ d, A d = true → SvFreeK S (S.dyn d).kind)
+    (d : StructDef) (hd : d ∈ S.structs)
+    (htag : d.defTag = T.requestMessage ∨ d.defTag = T.responseMessage)
+    (fuel : Nat) (pv : Val) (hs : List Val) (bv : Val) (cell : Option Ver) (items : List Item)
+    (cell' : Option Ver) (hv : Val.dynsOkL A [.struct (pv :: hs), bv] = true)
+    (h : encFields S (fuel + 2) d.fields [.struct (pv :: hs), bv] cell = .ok (items, cell')) :
+    ∃ fh fb hitems b, d.fields = [fh, fb] ∧
+      encK S (fuel + 1) fh.kind fh.tag (.struct (pv :: hs)) cell
+        = .ok ([.struct fh.tag hitems], some pv.asVer) ∧
+      encFields S (fuel + 1) [fb] [bv] (some pv.asVer) = .ok (b, some pv.asVer) ∧
+      items = .struct fh.tag hitems :: b ∧ cell' = some pv.asVer := by
+  have hm := List.all_eq_true.1 hM d hd
+  rw [if_pos htag] at hm
+  split at hm
+  · rename_i fh fb hfields
+    simp only [Bool.and_eq_true, Bool.not_eq_true', Option.isNone_iff_eq_none] at hm
+    obtain ⟨⟨⟨⟨⟨⟨m1, m2⟩, m3⟩, m4⟩, m5⟩, m6⟩, m7⟩ := hm
+    split at m7
+    · rename_i hid hkind
+      simp only [Bool.and_eq_true, Bool.or_eq_true, decide_eq_true_eq, Bool.not_eq_true'] at m7
+      obtain ⟨m7, m8⟩ := m7
+      refine ⟨fh, fb, ?_⟩
+      rw [hfields] at h
+      rw [Val.dynsOkL, Val.dynsOkL, Bool.and_eq_true, Bool.and_eq_true, Val.dynsOk] at hv
+      obtain ⟨hv1, hv2, _⟩ := hv
+      -- the header field is emitted unconditionally, with the incoming cell
+      have hskip : (fieldOutOfRange fh (fieldCell fh (.struct (pv :: hs)) cell) ||
+          (fh.omitempty && (Val.struct (pv :: hs)).isZero)) = false := by
+        unfold fieldOutOfRange; rw [m3, m4]; rfl
+      have hcell : fieldCell fh (.struct (pv :: hs)) cell = cell := by
+        unfold fieldCell; rw [m1]; rfl
+      have htg : fieldTag S fh (.struct (pv :: hs)) = fh.tag := by
+        unfold fieldTag; rw [m5]; rfl
+      rw [encFields_cons, hskip, hcell, htg] at h
+      simp only [Bool.false_eq_true, if_false] at h
+      obtain ⟨⟨a, c1⟩, h1, h2⟩ := Res.bind_eq_ok h
+      obtain ⟨⟨b, c2⟩, h3, h4⟩ := Res.bind_eq_ok h2
+      cases h4
+      -- inside the header: the cell becomes the header's ProtocolVersion
+      have h1' := h1
+      rw [hkind, encK.eq_def] at h1'
+      simp only [m8, Bool.false_eq_true, if_false] at h1'
+      obtain ⟨⟨hi, c0⟩, e1, e2⟩ := Res.bind_eq_ok h1'
+      cases e2
+      have hhd : S.structDef hid ∈ S.structs := by
+        rcases S.structDef_mem_or_default hid with hmem | hdef
+        · exact hmem
+        · rw [hdef] at m7; exact absurd m7 (by decide)
+      have hh := List.all_eq_true.1 hH _ hhd
+      rw [if_pos m7] at hh
+      split at hh
+      · rename_i f fs hhf
+        simp only [Bool.and_eq_true] at hh
+        rw [hhf] at e1
+        have hc1 : c0 = some pv.asVer :=
+          encFields_header_cell S A hA _ f fs pv hs cell hi c0 hh.1.1 ⟨N, hh.1.2⟩ ⟨N, hh.2⟩ hv1 e1
+        subst hc1
+        -- the batch items: a kind that reaches no set-version field
+        have hN : N ≠ 0 := by
+          intro h0; rw [h0, svFreeK] at m6; exact nomatch m6
+        obtain ⟨n, rfl⟩ := Nat.exists_eq_succ_of_ne_zero hN
+        have hfb : SvFreeFields S [fb] :=
+          ⟨n + 2, by rw [svFreeFields, m2, m6, svFreeFields]; rfl; exact fun h => nomatch h⟩
+        have hc2 := (cellStable S A hA _).encFields _ _ _ _ _ hfb
+          (by rw [Val.dynsOkL, Val.dynsOkL, hv2]; rfl) h3
+        subst hc2
+        exact ⟨hi, b, hfields, h1, h3, rfl, rfl⟩
+      · exact nomatch hh
+    · exact nomatch m7
+  · exact nomatch hm
+
 /-! ### C05: the pinned introduction table -/
 
 /-- stable keys of a struct: its default tag, and `1000000 + 2·op + response` for every operation whose
